@@ -470,3 +470,74 @@ Proof.
     change (upd_op o ?g2 (emit ?e s1)) with (emit e (upd_op o g2 s1)). apply Hemit.
     apply (Hfinal _ (ODone (ROk 0))); [intros q; reflexivity|reflexivity|discriminate].
 Qed.
+
+(* the sender joins the wait queue: no slot is free *)
+Lemma q_ok_wait s a o x p :
+  q_ok s -> get_actor s a = Some x -> get_op s o = Some p -> o_tgt p = a -> o_ph p = OPre ->
+  a_closed x = false -> free_slot x = false -> ~ In o (a_waiters x ++ a_granted x) ->
+  q_ok (upd_actor a (fun y => set_a_waiters (a_waiters y ++ [o]) y) s).
+Proof.
+  intros Hok Hx Hp Ht Hph Hc Hfree Hnin.
+  pose proof Hok as (H1 & H2 & H3). destruct (H1 a x Hx) as [q1 q2 p1 p2 nd].
+  unfold free_slot in Hfree. apply Nat.ltb_ge in Hfree.
+  split; [|split].
+  - intros b y Hy. rewrite get_actor_upd_actor in Hy. destruct (Nat.eqb_spec b a) as [->|Hne].
+    + rewrite Hx in Hy. cbn in Hy. injection Hy as <-. constructor; cbn; try assumption.
+      * intros _ _. nlia.
+      * apply nodup_app in nd. destruct nd as (n1 & n2 & n3). apply nodup_app. repeat split.
+        -- apply nodup_snoc; [exact n1|]. intros Hin. apply Hnin, in_or_app. left; exact Hin.
+        -- exact n2.
+        -- intros y Hy. apply in_app_or in Hy. destruct Hy as [Hy|[<-|[]]]; [apply n3, Hy|].
+           intros Hin. apply Hnin, in_or_app. right; exact Hin.
+    + eapply H1; exact Hy.
+  - intros b y o' k Hy Hin. change (get_op (upd_actor a ?f s) o') with (get_op s o').
+    rewrite get_actor_upd_actor in Hy. destruct (Nat.eqb_spec b a) as [->|Hne].
+    + rewrite Hx in Hy. cbn in Hy. injection Hy as <-. apply (H2 a x o' k Hx Hin).
+    + apply (H2 b y o' k Hy Hin).
+  - intros b y o' Hy Hin. change (get_op (upd_actor a ?f s) o') with (get_op s o').
+    rewrite get_actor_upd_actor in Hy. destruct (Nat.eqb_spec b a) as [->|Hne].
+    + rewrite Hx in Hy. cbn in Hy. injection Hy as <-. cbn in Hin. rewrite <- app_assoc in Hin.
+      apply in_app_or in Hin. destruct Hin as [Hin|Hin].
+      * apply (H3 a x o' Hx). apply in_or_app. left; exact Hin.
+      * cbn in Hin. destruct Hin as [<-|Hin].
+        -- exists p. repeat split; assumption.
+        -- apply (H3 a x o' Hx). apply in_or_app. right; exact Hin.
+    + apply (H3 b y o' Hy Hin).
+Qed.
+
+(* a new operation record with a fresh id *)
+Lemma q_ok_add_op s p :
+  q_ok s -> get_op s (o_id p) = None -> q_ok (set_s_ops (s_ops s ++ [p]) s).
+Proof.
+  intros (H1 & H2 & H3) Hfresh. split; [exact H1|split].
+  - intros a x o k Hx Hin. destruct (H2 a x o k Hx Hin) as (p' & Hp' & R).
+    exists p'. split; [|exact R]. rewrite get_op_app, Hp'. reflexivity.
+  - intros a x o Hx Hin. destruct (H3 a x o Hx Hin) as (p' & Hp' & R).
+    exists p'. split; [|exact R]. rewrite get_op_app, Hp'. reflexivity.
+Qed.
+
+Lemma q_ok_spawn s cap : q_ok s -> q_ok (spawn cap s).
+Proof.
+  intros (H1 & H2 & H3). unfold spawn. destruct (cap =? 0); [split; [|split]; assumption|].
+  set (x0 := mkActor (s_next s) cap [] [] [] false false 1 true PStart None [] 0%N [] []).
+  assert (Hget : forall b y, get_actor (emit (EvStartEnter (length (s_actors s)))
+                   (emit (EvSpawn (length (s_actors s)) (s_next s) cap)
+                      (set_s_next (wrap64 (s_next s + 1)) (set_s_actors (s_actors s ++ [x0]) s)))) b = Some y ->
+                 get_actor s b = Some y \/ y = x0).
+  { intros b y Hy. unfold get_actor in *. cbn in Hy.
+    destruct (Nat.lt_ge_cases b (length (s_actors s))) as [Hlt|Hge].
+    - rewrite nth_error_app1 in Hy by exact Hlt. left; exact Hy.
+    - rewrite nth_error_app2 in Hy by exact Hge. destruct (b - length (s_actors s)) as [|n]; cbn in Hy.
+      + right. congruence.
+      + destruct n; discriminate. }
+  split; [|split].
+  - intros b y Hy. destruct (Hget b y Hy) as [Hy'|E]; [eapply H1; exact Hy'|subst y].
+    constructor; cbn; try constructor.
+    + exists []. split; reflexivity.
+    + lia.
+    + intros _ Hw. congruence.
+  - intros b y o k Hy Hin. destruct (Hget b y Hy) as [Hy'|E]; [|subst y; destruct Hin].
+    destruct (H2 b y o k Hy' Hin) as (p & Hp & R). exists p. split; [exact Hp|exact R].
+  - intros b y o Hy Hin. destruct (Hget b y Hy) as [Hy'|E]; [|subst y; destruct Hin].
+    destruct (H3 b y o Hy' Hin) as (p & Hp & R). exists p. split; [exact Hp|exact R].
+Qed.
